@@ -68,3 +68,7 @@ func NumCPU() int {
 	}
 	return 1
 }
+
+// GOMAXPROCS replaces runtime.GOMAXPROCS in rewritten generator code: a query (n < 1) returns the simulated
+// width; a setting is ignored and returns the simulated width as the previous value.
+func GOMAXPROCS(n int) int { return NumCPU() }
